@@ -14,7 +14,9 @@
      scalar c                        c is a Unicode scalar value (not a surrogate, <= 10FFFF): exactly
                                      the text urllib.parse.quote can encode (lone surrogates raise
                                      UnicodeEncodeError on the client and cannot be sent) *)
-From Verif Require Import lib.Base lib.Str lib.Utf8 lib.Utf8Dec lib.Pct model.Qsl proofs.C18_spec proofs.C18_proofs proofs.C18_scan.
+From Verif Require Import lib.Base lib.Str lib.Utf8 lib.Utf8Dec lib.Pct lib.PyIntHex
+     model.Stream model.Body model.Chunked model.BodyLimits model.Qsl model.QslBody gen.Gen
+     proofs.C13_proofs proofs.C18_spec proofs.C18_proofs proofs.C18_scan proofs.C18_framing.
 
 (* For EVERY list of pairs with non-empty keys and scalar text — any characters,
    including '=', '&', '+', '%', space, controls, Latin-1, non-BMP; any repetition
@@ -76,6 +78,52 @@ Theorem C18_access_roundtrip :
                           end) order.
 Proof. exact C18_access_roundtrip_lemma. Qed.
 Print Assumptions C18_access_roundtrip.
+
+(* END TO END through the body pipeline (composition with C04, C05, C13; models
+   model/Stream.v, Body.v, Chunked.v, BodyLimits.v are imported, not restated).
+     forms_through s buf maxb cl chunked = Request.forms on a request whose wsgi.input is the
+        stream s (data fragmented by an arbitrary schedule), max_memfile_size = buf,
+        max_body_size = maxb, Content-Length cl / Transfer-Encoding chunked
+     encoding_of ps text  =  text = urlencode ps \/ text = urlencode_q ps
+     within maxb n        =  the body is within max_body_size when there is one
+   For all pairs (non-empty keys, scalar text), EVERY read-fragmentation schedule, every
+   buffer/threshold, anything behind the body on the stream; Content-Length = |text|, or
+   EVERY legal chunking of the text whose size lines fit the buffer:
+     |text| <= max_memfile_size : forms = group ps, the stream is left right behind the body;
+     |text| >  max_memfile_size : the 413 of C13 — never a parse of a truncated text. *)
+Theorem C18_forms_through_framing :
+  forall (ps : list (str * str)) (text : list N),
+    (forall k v, In (k, v) ps -> k <> [] /\ Forall scalar k /\ Forall scalar v) ->
+    encoding_of ps text ->
+    (forall (tail : list N) (sc : list nat) (buf : nat) (maxb : option nat),
+        0 < buf ->
+        let s := stream_init (text ++ tail) sc in
+        let cl := Z.of_nat (length text) in
+        (length text <= buf -> within maxb (length text) ->
+           exists s', forms_through s buf maxb cl false = FForms (group ps) s' /\ rest s' = tail)
+        /\ (buf < length text -> exists s', forms_through s buf maxb cl false = FStatus 413 s'))
+    /\
+    (forall (cs : list chunk) (last : chunk) (tail : list N) (sc : list nat) (buf : nat) (maxb : option nat),
+        payload_of cs = text ->
+        Forall chunk_ok cs -> last_ok last ->
+        Forall (fun c => line_len c <= buf) cs -> line_len last <= buf ->
+        let s := stream_init (enc_chunked cs last tail) sc in
+        (length text <= buf -> within maxb (length text) ->
+           exists s', forms_through s buf maxb (-1) true = FForms (group ps) s' /\ rest s' = tail)
+        /\ (buf < length text -> exists s', forms_through s buf maxb (-1) true = FStatus 413 s')).
+Proof. exact C18_forms_through_framing_lemma. Qed.
+Print Assumptions C18_forms_through_framing.
+
+(* For EVERY stream content (legal or not), framing and limits: forms that are delivered
+   are the parse of the complete text that _get_body_string returned, and that text is
+   at most max_memfile_size long. *)
+Theorem C18_forms_through_capped :
+  forall (data : list N) (sc : list nat) (buf : nat) (maxb : option nat) (cl : Z) (chunked : bool) d s',
+    forms_through (stream_init data sc) buf maxb cl chunked = FForms d s' ->
+    exists text, form_text (stream_init data sc) buf maxb cl chunked = TText text s'
+                 /\ length text <= buf /\ forms_urlencoded text = QDone d.
+Proof. exact C18_forms_through_capped_lemma. Qed.
+Print Assumptions C18_forms_through_capped.
 
 (* Parsing ANY string (any code points, any bytes for the body) yields a value:
    the model has no error constructor on this path and fuel is never exhausted. *)
@@ -196,3 +244,25 @@ Example C18_spec_example :
   qsl_spec [61;118;38;38;97;61;61;98;61;38;99;38;37;122;122;61;37;101;57;38]%N
   = [([118], []); ([97], [61;98;61]); ([99], []); ([37;122;122], [65533])]%N.
 Proof. vm_compute. reflexivity. Qed.
+
+(* the body  a=1&a=%2B  sent chunked as "3;x\r\na=1\r\n06\r\n&a=%2B\r\n0\r\n\r\n", one byte per read,
+   threshold 9 = its length (accepted) and 8 (413) *)
+Definition ex_chunks : list chunk :=
+  [ mkChunk [51]%N [59; 120]%N [97; 61; 49]%N; mkChunk [48; 54]%N [] [38; 97; 61; 37; 50; 66]%N ].
+Definition ex_last : chunk := mkChunk [48]%N [] [].
+
+Example C18_framing_nonvacuous :
+  payload_of ex_chunks = urlencode [([97], [49]); ([97], [43])]%N
+  /\ match forms_through (stream_init (enc_chunked ex_chunks ex_last [13; 10]%N) (repeat 0 40)) 9 (Some 9) (-1) true with
+     | FForms d s => d = [([97]%N, VList [[49]%N; [43]%N])] /\ rest s = [13; 10]%N
+     | _ => False
+     end
+  /\ match forms_through (stream_init (enc_chunked ex_chunks ex_last [13; 10]%N) (repeat 0 40)) 8 None (-1) true with
+     | FStatus c _ => c = 413%Z
+     | _ => False
+     end
+  /\ match forms_through (stream_init [97; 61; 49; 38; 97; 61; 37; 50; 66; 88; 88]%N [2; 0; 1]) 9 None 9 false with
+     | FForms d s => d = [([97]%N, VList [[49]%N; [43]%N])] /\ rest s = [88; 88]%N
+     | _ => False
+     end.
+Proof. vm_compute. repeat split. Qed.
